@@ -766,6 +766,7 @@ def run(ctx):
     c19.check_ring_ops(sub, fb)
     c19.check_compare(sub, fb)
     c19.check_sinks(sub, fb)
+    c19.check_conversions(sub, fb)
     for r in sub.results:
         (ctx.ok if r.status == "ok" else ctx.fail)("R20-6", r.instance, r.reason, r.loc)
     # fixtures: a swapped operator table and a swapped field must be caught
